@@ -65,10 +65,20 @@ def call(op, case, obj_or_data, schema, mode):
         return ('err', codec.classify(e))
 
 
-def check_encode_purity(rep, case, rng):
+def check_encode_purity(rep, case, rng, leave_defaults_out=False):
+    from harness.props import c04
+    import random as _random
     for mode in [('ber', True, 0), ('ber', False, 2), ('cer', False, 1000), ('der', True, 0)]:
-        obj = case.fresh_obj()
-        peer = case.fresh_obj()
+        if leave_defaults_out:
+            # members equal to their DEFAULT never assigned (the encoder must not materialise them in the value)
+            try:
+                obj = c04.build_shuffled(_random.Random(1), case.t, case.v, case.schema, False)
+                peer = c04.build_shuffled(_random.Random(1), case.t, case.v, case.schema, False)
+            except Exception:  # noqa
+                return
+        else:
+            obj = case.fresh_obj()
+            peer = case.fresh_obj()
         before = snapshot(case, obj, peer)
         cmp_before = compare_outcome(obj, peer)
         r1 = call('enc', case, obj, None, mode)
@@ -474,6 +484,8 @@ def run(rep, tier, seed):
         if sigs.has_constructed_default(case.t) or sigs.has_real_default(case.t):
             continue      # == on those values raises by itself (findings T11/T12 of C01)
         check_encode_purity(rep, case, rng)
+        if sigs._has_default_member(case.t):
+            check_encode_purity(rep, case, rng, leave_defaults_out=True)
         if len(pool) < 400:
             pool.append(case)
     fixed_histories(rep)
